@@ -17,6 +17,8 @@ CHECKS = {
              ref="4.13", tech="z3 string/regex theory queries over symbolic header fields + symx exploration of the header state machine; sat answers replayed on the real tool"),
  "C14": dict(text="Header base name symbolic (every character); expected guard symbol from an independent z3-defined oracle; accepted shape and guard mutations g1..g8 through the real pipeline, under .h and .c names: the matching HEADER_PROT_* diagnostic is present / absent on every path class.",
              ref="4.14", tech="symbolic execution of the pipeline with a symbolic file name and guard symbol (symx + z3), independent upper/dot oracle"),
+ "C16": dict(text="Per path class of symbolic program text: the real pipeline with debug 0, debug 1..2 (solver-chosen), -R <symbolic word> and -R CheckDefine; diagnostics must be equal (CheckDefine: only #define-value codes may disappear). CLI: the real main() on symbolic inline content (--cfile/--hfile + --filename) versus the same content read from a file, under solver-chosen option subsets.",
+             ref="4.16", tech="multi-run symbolic execution of the pipeline and of main() on shared symbolic text / content (symx + z3)"),
  "C17": dict(text="Partition argument over comment/string/char contents: for each program the contents of up to 3-4 comment and literal slots are symbolic over the code-like alphabet; the real pipeline's outcome (verdict, codes, lines, columns) must be identical on every explored path class.",
              ref="4.17", tech="symbolic execution of the whole pipeline with symbolic comment/literal contents; relational claim by path partition (symx + z3)"),
  "C18": dict(text="Partition argument over identifier spellings: every user identifier of a program is symbolic (consistent at all occurrences, class and length kept, keywords excluded by solver constraints); the outcome must be identical on every path class.",
